@@ -328,3 +328,14 @@ Lemma example_300 :
   length (filter (fun o => match o_evicted N o with Some _ => true | None => false end) (snd r)) = 89%nat /\
   length (filter (fun o => match o_out N o with ODrop _ => true | _ => false end) (snd r)) = 200%nat.
 Proof. vm_compute. auto. Qed.
+
+(* the finding fixed by /repo bbf8060, on the model of the old code: non-empty first address 1, the hook
+   rewrites to the empty string 0, the policy allows only 0: destination 1 receives both datagrams *)
+Lemma old_refuted :
+  exists (P : N -> bool) (hook : N -> hookres N) ins x,
+    Forall (wf_input N 0%N) ins /\ P x = false /\
+    In (OFwd N x) (map (o_out N) (snd (run_old N N.eqb 0%N P hook None ins))).
+Proof.
+  exists (fun a => N.eqb a 0), (fun _ => HRewrite 0%N), [IDgram N 1%N false 0%N; IDgram N 1%N false 0%N], 1%N.
+  split; [repeat constructor; discriminate|]. split; [reflexivity|]. vm_compute. auto.
+Qed.
